@@ -242,15 +242,19 @@ func (a *Animation) DecodeFramesParallel() error {
 		close(results)
 	}()
 
+	// Report the error of the lowest-numbered failing frame, so that the
+	// result does not depend on the order in which workers finish.
 	var firstErr error
+	firstErrIdx := -1
 	for r := range results {
-		if r.err != nil && firstErr == nil {
-			firstErr = r.err
+		if r.err != nil {
+			if firstErrIdx < 0 || r.idx < firstErrIdx {
+				firstErr = r.err
+				firstErrIdx = r.idx
+			}
 			continue
 		}
-		if r.err == nil {
-			a.Frames[r.idx].Image = r.img
-		}
+		a.Frames[r.idx].Image = r.img
 	}
 	return firstErr
 }
